@@ -25,8 +25,8 @@ import (
 
 func init() {
 	common := "explicit-state breadth-first search over states of the real token loop: state = (token-loop locals read from the running implementation via the overlay hook, stack of open input elements (which fixes the tokenizer's raw-text mode)); " +
-		"transitions = feed one more token of a well-nested document over the grammar W (text with a unique marker; open / matching close of 16 element forms (incl. pattern-matched names with non-ASCII and quote characters): kept with attributes, kept bare, dropped for lack of attributes, disallowed, disallowed skip-content, pattern-allowed with and without AllowNoAttrs, RCDATA / raw-text, script, style; void and self-closing leaves; comment), " +
-		"nesting depth <=4 (thorough 5) and ANY document length (siblings collapse onto visited states); one search per policy (14 policies: AllowUnsafe with and without script allowed, default and modified skip sets, element patterns with and without AllowNoAttrs, iframe allowed with attributes only, space insertion, comments, un-skipped script/style). Successor = fresh run of the real Sanitize on the state's shortest path plus the token. "
+		"transitions = feed one more token of a well-nested document over the grammar W (text with a unique marker; open / matching close of 18 element forms (incl. pattern-matched names with non-ASCII and quote characters): kept with attributes, kept bare, dropped for lack of attributes, disallowed, disallowed skip-content, pattern-allowed with and without AllowNoAttrs, RCDATA / raw-text, script, style; void and self-closing leaves; comment), " +
+		"nesting depth <=3 (thorough 4) and ANY document length (siblings collapse onto visited states); one search per policy (16 policies: a pattern that matches skip-set names, every void element allowed with attributes only, AllowUnsafe with and without script allowed, default and modified skip sets, element patterns with and without AllowNoAttrs, iframe allowed with attributes only, space insertion, comments, un-skipped script/style). Successor = fresh run of the real Sanitize on the state's shortest path plus the token. "
 	register(&run.Check{
 		ID:    "C08",
 		Level: "model_checking",
@@ -60,10 +60,13 @@ var wOpens = []wTok{
 	{"open", "object", "<object>"}, {"open", "iframe", "<iframe>"}, {"open", "iframe", "<iframe name=n>"}, {"open", "my-x", "<my-x id=a>"}, {"open", "my-y", "<my-y>"},
 	{"open", "title", "<title>"}, {"open", "script", "<script>"}, {"open", "style", "<style>"}, {"open", "span", "<span id=q>"},
 	{"open", "my-x\u00e9", "<my-x\u00e9>"}, {"open", "my-x\"q", "<my-x\"q>"},
+	{"open", "frameset", "<frameset>"}, {"open", "object", "<object id=a>"},
 }
 var wLeaves = []wTok{
 	{"leaf", "br", "<br>"}, {"leaf", "img", "<img>"}, {"leaf", "img", "<img src=x>"}, {"leaf", "br", "<br/>"}, {"leaf", "b", "<b/>"}, {"leaf", "x", "<x/>"}, {"leaf", "my-y", "<my-y/>"},
 	{"leaf", "!", "<!-- c -->"},
+	{"leaf", "source", "<source>"}, {"leaf", "input", "<input>"}, {"leaf", "embed", "<embed>"}, {"leaf", "area", "<area>"}, {"leaf", "track", "<track>"},
+	{"leaf", "link", "<link>"}, {"leaf", "meta", "<meta>"}, {"leaf", "param", "<param>"}, {"leaf", "base", "<base>"}, {"leaf", "col", "<col>"}, {"leaf", "hr", "<hr>"}, {"leaf", "wbr", "<wbr>"},
 }
 
 var rawEls = map[string]bool{"title": true, "script": true, "style": true, "iframe": true, "textarea": true, "xmp": true, "noscript": true, "noembed": true, "noframes": true, "plaintext": true}
@@ -83,6 +86,8 @@ func e2Specs() []spec.Spec {
 		w("e2-spaces", opt("AddSpaceWhenStrippingTag", true), C{Op: "AllowNoAttrs", Scope: "matching", OnRe: reMyX}),
 		w("e2-comments-unskip", C{Op: "AllowComments"}, C{Op: "AllowElementsContent", Names: []string{"script", "style", "iframe"}}, els("script", "style")),
 		w("e2-pattern-lax", attrsPat([]string{"id"}, "", reMyX)),
+		w("e2-pattern-skipnames", C{Op: "AllowNoAttrs", Scope: "matching", OnRe: `^(object|my-x)$`}, attrsPat([]string{"id"}, "", `^(object|iframe)$`)),
+		w("e2-voids", attrsOn([]string{"src", "href", "name"}, "", "source", "input", "embed", "area", "track", "link", "meta", "param", "base", "col", "hr", "wbr", "img")),
 		w("e2-unsafe", opt("AllowUnsafe", true)),
 		w("e2-unsafe-script-allowed", opt("AllowUnsafe", true), els("script"), C{Op: "SkipElementsContent", Names: []string{"p"}}),
 		{Name: "e2-ugc", Base: "ugc"},
@@ -149,9 +154,9 @@ type e2Case struct {
 
 func runE2(c *run.Ctx, prop string) {
 	specs := e2Specs()
-	depth := 4
+	depth := 3
 	if !c.Quick() {
-		depth = 5
+		depth = 4
 	}
 	if !hooks.Available {
 		c.Cap("binary built without the instrumentation overlay: state = input stack only, documents bounded to 6 tokens")
